@@ -59,9 +59,10 @@ def root_records(kind, seed, limit):
     roots = []
     if kind.startswith("curated"):
         roots = [l.strip() for l in open(os.path.join(vlib.VERIF, "roots", "curated.sfen")) if l.strip() and not l.startswith("#")]
-        extra = os.path.join(vlib.VERIF, "roots", "synth.sfen")
-        if os.path.exists(extra):
-            roots += [l.strip() for l in open(extra) if l.strip() and not l.startswith("#")]
+        for name in ("synth.sfen", "curated_flipped.sfen"):
+            extra = os.path.join(vlib.VERIF, "roots", name)
+            if os.path.exists(extra):
+                roots += [l.strip() for l in open(extra) if l.strip() and not l.startswith("#")]
     elif kind.startswith("starts"):
         roots = [l.strip() for l in open(os.path.join(vlib.VERIF, "roots", "chess960_start_positions.sfens")) if l.strip()]
     elif kind.startswith("corpus"):
